@@ -441,13 +441,19 @@ func checkB58Dec(s string) {
 	ref := refB58Decode(s)
 	if (d == nil) != (len(ref) == 0) || (d != nil && !bytes.Equal(d, ref)) {
 		r.PropFail("b58-decode", fmt.Sprintf("Decodeb58(%q) = %x, Base58 definition gives %x", s, d, ref),
-			map[string]interface{}{"op": "b58dec", "string": s})
+			map[string]interface{}{"op": "b58dec", "string": s, "string_hex": vlib.Hex([]byte(s))})
 		return
 	}
 	mo := o.MustAsk("b58dec " + vlib.Hex([]byte(s)))
 	if mo != il {
 		r.TieFail("tie-b58dec", fmt.Sprintf("model/impl differ on Decodeb58(%q): impl=%q model=%q", s, il, mo),
-			map[string]interface{}{"op": "b58dec", "string": s, "impl": il, "model": mo})
+			map[string]interface{}{"op": "b58dec", "string": s, "string_hex": vlib.Hex([]byte(s)), "impl": il, "model": mo})
+		return
+	}
+	// the digit loop as written (range over the code points, Model/Base58Str.lean) is the code's loop
+	if ms := o.MustAsk("b58src " + vlib.Hex([]byte(s))); ms != il {
+		r.TieFail("tie-b58src", fmt.Sprintf("loop-as-written model and impl differ on Decodeb58(%q): impl=%q model=%q", s, il, ms),
+			map[string]interface{}{"op": "b58dec", "string": s, "string_hex": vlib.Hex([]byte(s)), "impl": il, "model": ms})
 		return
 	}
 	r.TieOK()
@@ -946,6 +952,8 @@ func main() {
 	histStreams(g.Fork(), valid)
 	// 11. several callers at once, nothing shared (concurrent.go)
 	concStreams(g.Fork(), valid)
+	// 12. typed strings with characters outside ASCII: aliases of alphabet characters (unicode.go)
+	unicodeStreams(g.Fork(), valid)
 
 	r.Assume = []string{
 		"SHA-256 and RIPEMD-160 are modelled (Lean executable versions validated here against Go's), theorems are parametric in them",
@@ -975,7 +983,11 @@ func replay(path string) {
 	case "b58":
 		checkB58(vlib.UnHex(str("bytes")))
 	case "b58dec":
-		checkB58Dec(str("string"))
+		if h, ok := doc.Replay["string_hex"].(string); ok {
+			checkB58Dec(string(vlib.UnHex(h)))
+		} else {
+			checkB58Dec(str("string"))
+		}
 	case "pk":
 		tn, _ := doc.Replay["testnet"].(bool)
 		checkPk(vlib.UnHex(str("script")), tn)
@@ -1014,6 +1026,8 @@ func replay(path string) {
 		v, _ := doc.Replay["ver"].(float64)
 		c, _ := doc.Replay["compr"].(bool)
 		checkWifEnc(byte(v), vlib.UnHex(str("key")), c)
+	case "runes":
+		checkRunes(string(vlib.UnHex(str("string_hex"))))
 	case "b32enc":
 		m, _ := doc.Replay["m"].(bool)
 		checkB32(str("hrp"), vlib.UnHex(str("data")), m)
